@@ -125,6 +125,24 @@ def check_assign(case):
         sr = m2.subregions["cand"]
         if tuple(sr.dims) != tuple(dims) or tuple(sr.units) != tuple(units):
             raise Violation("metadata-not-overwritten", f"subregion carries dims {sr.dims} units {sr.units}")
+        # what the mesh holds is its own: the Region handed in (or the same dict attached to a second mesh) may be
+        # moved in place afterwards, and the mesh may be transformed in place, without the other side noticing
+        held = c13.snap_mesh(m2)
+        cand_snap = (cand.pmin.tobytes(), cand.pmax.tobytes())
+        other = df.Mesh(region=df.Region(p1=mesh.region.pmin, p2=mesh.region.pmax), n=mesh.n, subregions=new)
+        other_snap = c13.snap_mesh(other)
+        cand.translate(tuple(0.5 * float(c) for c in lat.cell), inplace=True)
+        cand.scale(0.5, inplace=True)
+        if c13.snap_mesh(m2) != held or c13.snap_mesh(other) != other_snap:
+            raise Violation("subregion-shared-with-caller", "moving the Region that was handed in changed the subregion "
+                                                            "held by the mesh")
+        c13.check_mesh_inv(m2, "after the caller moved its Region")
+        cand_snap = (cand.pmin.tobytes(), cand.pmax.tobytes())
+        m2.translate(tuple(3 * float(c) for c in lat.cell), inplace=True)
+        if c13.snap_mesh(other) != other_snap or (cand.pmin.tobytes(), cand.pmax.tobytes()) != cand_snap:
+            raise Violation("subregion-shared-between-meshes", "an in-place translation of one mesh moved the subregions "
+                                                               "of a second mesh built from the same dictionary")
+        c13.check_mesh_inv(other, "after the first mesh moved")
     else:
         try:
             assign()
@@ -152,12 +170,26 @@ def hstep(draw, nd):
 @st.composite
 def hist_case(draw):
     nd = draw(st.sampled_from([1, 2, 2, 3, 3, 4]))
-    if draw(st.integers(0, 3)) == 0:
+    if draw(st.integers(0, 2)) == 0:
+        # integer-typed corners (region and, mostly, subregions) with fractional cells: clipped faces are not integers
         g = draw(gen.geom_int(ndim=nd))
+        g["int_subs"] = draw(st.integers(0, 3)) > 0
     else:
         g = draw(gen.geom(ndim=nd, nmin=1, nmax=5, exps=(-9, 0), big_offsets=False, maxcells=300, tol=False))
     return {"g": g, "subs": draw(gen.index_boxes(g["n"], 3, min_boxes=1)),
             "steps": draw(st.lists(hstep(nd), min_size=1, max_size=6))}
+
+
+@st.composite
+def hist_case_int(draw):
+    """selections first, on integer-typed regions and subregions with fractional cells (clip faces are not integers)"""
+    nd = draw(st.sampled_from([1, 2, 2, 3]))
+    g = draw(gen.geom_int(ndim=nd, fractional=True))
+    g["int_subs"] = True
+    sel = st.tuples(st.sampled_from(["range", "range", "plane"]), st.integers(0, 3), st.integers(0, 11), st.integers(0, 11),
+                    st.sampled_from(["c", "v", "f", "face"]), st.sampled_from(["c", "v", "f", "face"])).map(list)
+    return {"g": g, "subs": draw(gen.index_boxes(g["n"], 3, min_boxes=1)),
+            "steps": draw(st.lists(sel, min_size=1, max_size=2)) + draw(st.lists(hstep(nd), min_size=0, max_size=2))}
 
 
 def coord_at(mesh, d, kind, i, boxes):
@@ -371,6 +403,7 @@ def check_aligned(case):
 SUBS = [
     Sub("assign", check_assign, assign_case(), quick=600, thorough=4000),
     Sub("history", check_history, hist_case(), nontrivial=nt_hist, quick=400, thorough=3000),
+    Sub("history-int-typed", check_history, hist_case_int(), nontrivial=nt_hist, quick=300, thorough=2000),
     Sub("is-aligned", check_aligned, aligned_case(), quick=500, thorough=3000),
 ]
 
@@ -378,6 +411,6 @@ SUBS = [
 # objects with a history (reads that may fill caches, in-place writes): observables equal those of a fresh object
 from pbt import aged as _aged  # noqa: E402
 
-SUBS.append(_aged.sub("C14", quick=120))
+SUBS.append(_aged.sub("C14", quick=250))
 ASSUMPTIONS = list(ASSUMPTIONS) + ["aged sub-property: library results are a function of the public primary state "
                                    "(corners, n, names, units, bc, subregions, array, validity, labels, mapping, unit)"]
